@@ -9,4 +9,5 @@ Extraction "vmodel.ml"
   w3c_macro cfg_after
   ist_init istep irun enabled sched_run child_next parent_next count_done msgs
   Build_inv_obs invoke_protocolb
-  Build_session_tables is_valid_target route send_dest deliver_all dequeue_external.
+  Build_session_tables is_valid_target route send_dest deliver_all dequeue_external
+  tstep trun tst_init tstuck.
